@@ -124,10 +124,10 @@ def src_impl(a):
     w = _new_world()
     ok = True
     if sel["group"] == "spellings":
-        s = dict((r, _sig(w, None, root=r)) for r in ("root_pos", "root_kw", "root_kw2", "root_def", "root_defx", "root_defk", "root_other", "root_swap", "root_same"))
+        s = dict((r, _sig(w, None, root=r)) for r in ("root_pos", "root_kw", "root_kw2", "root_def", "root_defx", "root_defk", "root_other", "root_kw_other", "root_ykw", "root_ykw_other", "root_swap", "root_same"))
         direct = _sig(w, "g3", (1, 7, "q"))
         same = [("root_pos", "root_kw"), ("root_pos", "root_kw2"), ("root_def", "root_defx"), ("root_def", "root_defk")]
-        diff = [("root_pos", "root_def"), ("root_pos", "root_other"), ("root_swap", "root_same")]
+        diff = [("root_pos", "root_def"), ("root_pos", "root_other"), ("root_swap", "root_same"), ("root_kw", "root_kw_other"), ("root_ykw", "root_ykw_other"), ("root_ykw", "root_def")]
         for (p, q) in same:
             if s[p] != s[q] or isinstance(s[p], tuple):
                 ok = False
